@@ -51,6 +51,53 @@ BoolsX  == Bools \o <<Vi("bi1", 1, F), Vs("bstr", "on", F), Vn("bnone", F)>>
 Until   == <<Vn("unone", T), Vd("uleap", "2024-02-29T12:30:00", T), Vd("udst", "2023-03-26T02:30:00", T)>>
            \o (IF Deep THEN <<Vd("uyend", "2021-12-31T23:59:00", T), Vs("ustr", "2024-02-29T12:30:00", T), Vd("unoleap", "2025-02-28T23:59:00", T),
                                Vd("udstend", "2023-10-29T02:30:00", T), Vd("u2099", "2099-12-31T23:59:00", T), Vd("u2000", "2000-01-01T00:00:00", T)>> ELSE <<>>)
+(* datetimes finer than the wire (a clock read with dt.now() has microseconds): second 0 / 30 / 59 of a minute
+   x microsecond 1 / 499999 / 500000 / 999999 -- below, at and above the half of the wire unit, and the last
+   representable instant before the next one; the 59.x ones are followed by a new minute / day / month.
+   One input class "subsec".  `until` arguments are carried in whole minutes, W|313F in whole seconds. *)
+Sub(q) == GpAll(q, "subsec")
+UsOf == <<1, 499999, 500000, 999999>>
+UsTag == <<"u1", "u499999", "u500000", "u999999">>
+\* until = 2024-02-29T12:30:ss.uuuuuu / 2024-02-29T23:59:59.uuuuuu: k = microseconds beyond the whole minute
+UntilSubAt(tag, lo, hi, sec) == [i \in 1..4 |-> Vdf(tag \o UsTag[i], lo, sec * 1000000 + UsOf[i], hi, T)]
+UntilSubQ == Sub(<<Vdf("us00u1", "2024-02-29T12:30:00", 1, "2024-02-29T12:31:00", T),
+                   Vdf("us59u500000", "2024-02-29T23:59:00", 59500000, "2024-03-01T00:00:00", T)>>)
+\* Deep: the other ten combinations, whole seconds without microseconds, ISO text (crossed with the defaults of the other slots only)
+UntilSubD == IF Deep
+             THEN Sub(SelectSeq(UntilSubAt("us00", "2024-02-29T12:30:00", "2024-02-29T12:31:00", 0)
+                                \o UntilSubAt("us30", "2024-02-29T12:30:00", "2024-02-29T12:31:00", 30)
+                                \o UntilSubAt("us59", "2024-02-29T23:59:00", "2024-03-01T00:00:00", 59),
+                                LAMBDA v : v.tag \notin {"us00u1", "us59u500000"})
+                      \o <<Vdf("us30u0", "2024-02-29T12:30:00", 30000000, "2024-02-29T12:31:00", T),
+                           Vdf("us59u0", "2024-02-29T23:59:00", 59000000, "2024-03-01T00:00:00", T),
+                           Vdft("ustrsub", "2024-02-29T12:30:00", 59500000, "2024-02-29T12:31:00", T)>>)
+             ELSE <<>>
+\* set_system_time
+TimeSubAt(tag, lo, hi) == [i \in 1..4 |-> Vdf(tag \o UsTag[i], lo, UsOf[i], hi, T)]
+TimeSub == Sub(TimeSubAt("ts00", "2000-01-01T00:00:00", "2000-01-01T00:00:01")
+               \o TimeSubAt("ts30", "2024-06-15T12:00:30", "2024-06-15T12:00:31")
+               \o TimeSubAt("ts59", "2024-02-29T23:59:59", "2024-03-01T00:00:00")
+               \o (IF Deep THEN TimeSubAt("ts59h", "2023-07-31T22:59:59", "2023-07-31T23:00:00")
+                                 \o TimeSubAt("ts59m", "2025-06-01T12:00:59", "2025-06-01T12:01:00")
+                                 \o <<Vdft("tstrsub", "2024-02-29T23:59:59", 500000, "2024-03-01T00:00:00", T)>>
+                    ELSE <<>>))
+
+(* the calendar: every month, the first and the last day of a month, hour 0 / 23, minute 0 / 59 (second 0 / 59
+   for W|313F), years 2000 / 2024 / 2099 -- a covering set (every value of every field, not their product), one
+   class per month and one input class "mon<MM>" per month.  Deep adds the complementary set (first <-> last
+   day, 0 <-> 23 h, 0 <-> 59 min, another year; non-leap February) under the same input classes. *)
+CalA == <<<<"01", "2000-01-01T00:00", ":00">>, <<"02", "2024-02-29T23:59", ":59">>, <<"03", "2099-03-01T23:00", ":59">>,
+          <<"04", "2000-04-30T00:59", ":00">>, <<"05", "2024-05-01T00:59", ":59">>, <<"06", "2099-06-30T23:00", ":00">>,
+          <<"07", "2000-07-31T23:59", ":00">>, <<"08", "2024-08-31T00:00", ":59">>, <<"09", "2099-09-01T23:59", ":00">>,
+          <<"10", "2000-10-31T00:00", ":59">>, <<"11", "2024-11-30T23:00", ":00">>, <<"12", "2099-12-31T23:59", ":59">>>>
+CalB == <<<<"01", "2024-01-31T23:59", ":59">>, <<"02", "2099-02-28T00:00", ":00">>, <<"03", "2000-03-31T00:59", ":00">>,
+          <<"04", "2024-04-01T23:00", ":59">>, <<"05", "2099-05-31T23:00", ":00">>, <<"06", "2000-06-01T00:59", ":59">>,
+          <<"07", "2024-07-01T00:00", ":59">>, <<"08", "2099-08-01T23:59", ":00">>, <<"09", "2000-09-30T00:00", ":59">>,
+          <<"10", "2024-10-01T23:59", ":00">>, <<"11", "2099-11-01T00:59", ":59">>, <<"12", "2024-12-01T00:00", ":00">>>>
+CalOf(tab, sfx, secs) == [i \in 1..12 |-> Gp(Vd("cal" \o tab[i][1] \o sfx, tab[i][2] \o (IF secs THEN tab[i][3] ELSE ":00"), T), "mon" \o tab[i][1])]
+UntilCal == CalOf(CalA, "a", F) \o (IF Deep THEN CalOf(CalB, "b", F) ELSE <<>>)
+TimeCal  == CalOf(CalA, "a", T) \o (IF Deep THEN CalOf(CalB, "b", T) ELSE <<>>)
+
 Durn    == <<Vn("dnone", T), Gp(Vi("d3600", 3600, T), "secs"), Vi("d0", 0, F)>> \o (IF Deep THEN <<Gp(Vi("d60", 60, T), "secs"), Vi("dbig", 16777216, F)>> ELSE <<>>)
 
 ModeArg == <<Vn("mnone", T), Vs("mfollow", "follow_schedule", T), Vs("mperm", "permanent_override", T),
@@ -76,6 +123,22 @@ FanModeArg == <<Vi("fi2", 2, T), Vn("fnone", T), Vs("f03", "03", T), Gp(Vs("fhig
 (* data-ids the library's OpenTherm schema names (opentherm.py); the others are "Unknown data-id" to its decoder *)
 KnownOtIds == {0, 1, 2, 3, 5, 6, 9, 10, 12, 13, 14, 15, 16, 17, 18, 19, 24, 25, 26, 27, 28, 48, 49, 56, 57, 113, 114, 115, 116, 117, 118, 119, 120, 121, 122, 123, 124, 125, 126, 127}
 OtId(n) == IF n \in KnownOtIds THEN Vi("o" \o Hex2(n), n, T) ELSE Gp(Vi("o" \o Hex2(n), n, T), "unknown-id")
+
+(* the same code lists in every kind of container (CmdApi!SeqKinds).  The constructor sniffs its argument with
+   codes[0], i.e. it documents what can be indexed (list, tuple; a single code as text); for everything else it
+   either refuses the call or builds a frame that carries the codes the container yields (clauses b / c).
+   Input classes: "view" = sized and re-iterable but not indexable, "oneshot" = yields its items once *)
+CodesIn == <<Vq("ctup2", "tuple", <<"30C9", "0008">>, T)>>
+           \o GpAll(<<Vq("ckeys2", "keys", <<"30C9", "0008">>, F)>>, "view")
+           \o GpAll(<<Vq("cgen2", "gen", <<"30C9", "0008">>, F), Vq("citer1", "iter", <<"30C9">>, F),
+                      Vq("cmap2", "map", <<"2309", "30C9">>, F)>>, "oneshot")
+           \o (IF Deep THEN <<Vq("ctup1", "tuple", <<"2309">>, T), Vq("ctup3", "tuple", <<"30C9", "0008", "2309">>, T)>>
+                             \o GpAll(<<Vq("ckeys1", "keys", <<"2309">>, F), Vq("ckeys3", "keys", <<"30C9", "0008", "2309">>, F),
+                                        Vq("cset1", "set", <<"30C9">>, F)>>, "view")
+                             \o GpAll(<<Vq("cgen1", "gen", <<"2309">>, F), Vq("cgen3", "gen", <<"30C9", "0008", "2309">>, F),
+                                        Vq("citer2", "iter", <<"30C9", "0008">>, F), Vq("cmap1", "map", <<"30C9">>, F),
+                                        Vq("cgen0", "gen", <<>>, F), Vq("cgenfc9", "gen", <<"1FC9">>, F)>>, "oneshot")
+                ELSE <<>>)
 
 Slots(ctor) ==
   CASE ctor \in ZoneRQ -> <<<<"zone_idx", ZoneCls>>>>
@@ -136,21 +199,22 @@ Slots(ctor) ==
          <<<<"dhw_idx", IF Deep THEN DhwIdx ELSE <<Va, Vi("d1", 1, T), Vi("d2", 2, F)>>>>,
            <<"mode", ModeArg>>,
            <<"active", <<Vb("bT", 1, T), Vb("bF", 0, T), Vn("anone", T), Vi("ai1", 1, T), Vs("astr", "on", F)>>>>,
-           <<"until", Until>>,
+           <<"until", Until \o UntilSubQ>>,
            <<"duration", Durn>>>>
     [] ctor = "set_zone_mode" ->
          <<<<"zone_idx", IF Deep THEN ZoneFew \o <<ZS(11), ZS(15), ZI(7), Vs("zHW", "HW", F), Vs("z10", "10", F)>> ELSE ZoneFew>>,
            <<"mode", ModeArg>>,
            <<"setpoint", <<Vr("t2150", 2150, T), Vn("tnone", T), Lsb(Vr("t502", 502, T)), Vi("ti20", 20, T), Vr("twrap", 40000, F), Vs("tstr", "21.5", F)>>>>,
-           <<"until", Until>>,
+           <<"until", Until \o UntilSubQ>>,
            <<"duration", Durn>>>>
     [] ctor = "set_zone_setpoint" -> <<<<"zone_idx", IF Deep THEN ZoneFew ELSE ZoneCls>>, <<"setpoint", Setpoint \o <<Vn("tnone", F)>> \o TempOut \o Grid(500, 3500)>>>>
-    [] ctor = "set_system_mode" -> <<<<"system_mode", SysModeArg>>, <<"until", Until>>>>
+    [] ctor = "set_system_mode" -> <<<<"system_mode", SysModeArg>>, <<"until", Until \o UntilSubQ \o UntilCal \o UntilSubD>>>>
     [] ctor = "set_system_time" ->
          <<<<"datetime", <<Vd("tleap", "2024-02-29T23:59:59", T), Vd("tdst", "2023-03-26T02:30:15", T), Vd("tyend", "2021-12-31T23:59:00", T),
                            Vd("t2000", "2000-01-01T00:00:00", T), Vs("tstr", "2024-02-29T23:59:59", T), Vn("tnone", F)>>
                          \o (IF Deep THEN <<Vd("tnoleap", "2025-02-28T23:59:59", T), Vd("tdstend", "2023-10-29T02:59:59", T), Vd("t2099", "2099-12-31T23:59:59", T),
-                                             Vd("tmid", "2024-06-15T12:00:01", T), Vd("t1999", "1999-12-31T23:59:59", F)>> ELSE <<>>)>>,
+                                             Vd("tmid", "2024-06-15T12:00:01", T), Vd("t1999", "1999-12-31T23:59:59", F)>> ELSE <<>>)
+                         \o TimeSub \o TimeCal>>,
            <<"is_dst", <<Va, Vb("bF", 0, T), Vb("bT", 1, T)>>>>>>
     [] ctor = "put_sensor_temp"  -> <<<<"temperature", SensorT \o Grid(-1000, 4000)>>>>
     [] ctor = "put_dhw_temp"     -> <<<<"temperature", SensorT \o Grid(0, 9999)>>>>
@@ -168,7 +232,8 @@ Slots(ctor) ==
          <<<<"verb", <<Vs("vI", " I", T), Vs("vW", " W", T), Vs("vRQ", "RQ", F), Vs("vRP", "RP", F)>>>>,
            <<"dstrel", <<Vs("rnone", "none", T), Vs("rself", "self", T), Vs("rall", "all", T), Vs("rother", "other", T)>>>>,
            <<"codes", <<Vl("c1", <<"30C9">>, T), Vl("c2", <<"30C9", "0008">>, T), Vs("cstr", "2309", T), Gp(Vn("cnone", T), "nocodes"), Gp(Vl("cempty", <<>>, T), "nocodes"),
-                        Vl("cfc9", <<"1FC9">>, T), Vl("cmix", <<"10E0", "22F1", "1FC9">>, T), Vl("cbad", <<"ZZ">>, F)>>>>,
+                        Vl("cfc9", <<"1FC9">>, T), Vl("cmix", <<"10E0", "22F1", "1FC9">>, T), Vl("cbad", <<"ZZ">>, F)>>
+                      \o CodesIn>>,
            <<"idx", <<Va, Vs("i00", "00", T), Vs("i01", "01", T), Vs("i21", "21", T)>>>>,
            <<"oem_code", <<Va, Vs("o6C", "6C", T)>>>>>>
     [] ctor = "set_fan_mode" ->
@@ -193,9 +258,16 @@ Prod(sl) == IF sl = <<>> THEN {<<>>}
                      cls  == sl[1][2] IN
                  {<<Bind(name, cls[i], i)>> \o rest : i \in 1..Len(cls), rest \in Prod(Tail(sl))}
 
+(* a covering set for one slot where the full product would be too large: the classes `more` of slot `name` are
+   added to its own, every other slot keeps its first class (the plain default) only *)
+Narrow(sl, name, more) == [j \in 1..Len(sl) |-> IF sl[j][1] = name THEN <<name, sl[j][2] \o more>> ELSE <<sl[j][1], <<sl[j][2][1]>>>>]
+MoreSlots(ctor) ==
+  CASE ctor \in {"set_zone_mode", "set_dhw_mode"} -> {Narrow(Slots(ctor), "until", UntilCal \o UntilSubD)}
+    [] OTHER -> {}
+
 VARIABLES ctor, args
 vars == <<ctor, args>>
-Init == ctor \in Ctors /\ args \in Prod(Slots(ctor))
+Init == ctor \in Ctors /\ args \in Prod(Slots(ctor)) \cup UNION {Prod(sl) : sl \in MoreSlots(ctor)}
 Next == UNCHANGED vars
 Spec == Init /\ [][Next]_vars
 
@@ -206,7 +278,12 @@ SpecMap == InitMap /\ [][Next]_vars
 ----------------------------------------------------------------------------------------------
 (* what TLC checks on the tables themselves *)
 TypeOK == /\ ctor \in Ctors
-          /\ \A i \in 1..Len(args) : args[i].t \in {"none", "int", "num", "str", "bool", "dtm", "list"}
+          /\ \A i \in 1..Len(args) : args[i].t \in {"none", "int", "num", "str", "bool"} \cup DtmKinds \cup SeqKinds
+          \* a datetime finer than the wire lies strictly between two wire instants of its slot's resolution
+          /\ \A i \in 1..Len(args) : (args[i].t \in DtmKinds /\ args[i].k # 0) =>
+                  /\ args[i].k > 0 /\ args[i].k < DtmUnit(ctor, args[i].slot)
+                  /\ Len(args[i].l) = 1 /\ args[i].l[1] # args[i].s
+          /\ \A i \in 1..Len(args) : (args[i].t = "set") => Len(args[i].l) <= 1        \* a set has no order
 (* every constructor of the map is enumerated, under a key that maps back to it *)
 KeyConsistent == ApiKeyOf(ctor, args) \in DOMAIN ApiMap /\ ApiMap[ApiKeyOf(ctor, args)] = ctor
 (* the mode tables are total and agree with each other: a normalised mode is a known mode *)
